@@ -68,7 +68,9 @@ def run(tier, replay_file=None):
             if len(R.violations) >= 20:
                 break
     # (c) the compressing adapter: instances externalised before any session exists, server lost, restart, then used
-    h3, _ = gen.histories("Server", dict(consts('{"i1","i2"}', 4, DEV, '{"Start","SaveState","Crash","Begin","Step","Metrics"}', kv='{0,2}', sv='{0}', scen='{"base"}',
+    # (generated with the faithful model of the compressed format too, so that KF-C19-1 - setting-less steps vanish from the
+    # restored settings log - is recognised by its own match rule and nothing else is)
+    h3, _ = gen.histories("Server", dict(consts('{"i1","i2"}', 4, '{"D16b_no_replay","D15_compress_lossy"}', '{"Start","SaveState","Crash","Begin","Step","Metrics"}', kv='{0,2}', sv='{0}', scen='{"base"}',
                                                 timeouts='{3}', ticks='{1}'), Compress="TRUE"), 5 if quick else 6)
     h3 = [h for h in h3 if any(x["op"] == "Crash" for x in h)]
     if quick:
@@ -103,7 +105,7 @@ def run(tier, replay_file=None):
     R.cov["crashes_replayed"], R.cov["torn_files"], R.cov["known_matches"] = crashes, tears, known_total
     if not R.violations and (crashes < 50 or tears < 5):
         raise common.Machinery("too few crash points / torn files generated (vacuous)")
-    for e in R.findings.open_for("C20"):
+    for e in R.findings.open_for("C20") + [e for e in R.findings.entries if e.get("status") == "open" and "C20" in e.get("also", [])]:
         if known_total.get(e["dev"]):
             R.known_finding(e["id"], e["what"][:160], known_total[e["dev"]])
     R.sample([{a: b for a, b in h.items() if a not in ("rows", "want", "row")} for h in hs[len(hs) // 2]])
